@@ -33,7 +33,8 @@ ExpectedUnder(t, p) == Render([CxOf(t) EXCEPT !.perm = p], t.prog, EnvOf(t.env))
 
 \* "ok" | "unspec" | "REJECT"
 Verdict(t, exp) ==
-  CASE exp.status = "ok" -> IF t.outcome = "ok" /\ t.out = exp.out THEN "ok" ELSE "REJECT"
+  CASE t.outcome = "unstable" -> "REJECT"        \* re-rendering the parsed template gave a different result
+    [] exp.status = "ok" -> IF t.outcome = "ok" /\ t.out = exp.out THEN "ok" ELSE "REJECT"
     [] exp.status = "error" ->
          IF t.outcome = "error" /\ Fld(t, "srcerr", TRUE)
             /\ (exp.err.line < 0 \/ ~Fld(t, "chkline", FALSE) \/ t.errline = exp.err.line)
